@@ -24,3 +24,10 @@ pub fn rand_hist(rng: &mut Rng, len: usize, den: i64) -> Vec<Rat> {
 }
 pub fn small_hists(len: usize) -> Vec<Vec<Rat>> { crate::util::all_seqs(&[Rat::int(-1), Rat::int(0), Rat::int(2)], len) }
 
+
+/// run a float instantiation on exactly representable inputs and report its outputs as exact rationals
+pub struct ViaF64<F>(pub F);
+impl<F: Filter<f64, Output = f64>> Filter<Rat> for ViaF64<F> { type Output = Rat; fn filter(&mut self, x: Rat) -> Rat { f64_exact(self.0.filter(x.to_f64())).unwrap_or(Rat::int(i64::MAX / 16)) } }
+pub struct ViaF32<F>(pub F);
+impl<F: Filter<f32, Output = f32>> Filter<Rat> for ViaF32<F> { type Output = Rat; fn filter(&mut self, x: Rat) -> Rat { f64_exact(self.0.filter(x.to_f64() as f32) as f64).unwrap_or(Rat::int(i64::MAX / 16)) } }
+pub fn int_hist(rng: &mut Rng, len: usize, mag: i64) -> Vec<Rat> { let mut cur = rng.range(-mag, mag); (0..len).map(|_| { if rng.below(4) != 0 { cur = rng.range(-mag, mag); } Rat::int(cur) }).collect() }
